@@ -26,7 +26,7 @@ func init() {
 		lookupErrors(c)
 		gen.CheckLoopsPureUntilExit(c.Run, c.Prog)
 		gen.CheckRecursionFanout(c.Run, c.Prog)
-		gen.CheckLoadErrorsFatal(c.Run, c.Prog)
+		loadErrorsTable(c)
 		tick("others")
 		gen.PositiveControlPanics(c.Run, c.Prog)
 		tick("controls")
